@@ -16,6 +16,7 @@ import (
 type Clause struct {
 	Kind  string // requires ensures invariant decreases modifies assert
 	Label string
+	View  string // "view:label": the clause belongs to one proof view of the function (see Enc.view)
 	Props []string
 	Text  string
 	Expr  SExpr
@@ -281,7 +282,11 @@ func (cs *ContractSet) addClause(c *Contract, w, rest string, line int, file str
 		if err != nil {
 			return nil, err
 		}
-		return &Clause{Kind: kind, Label: label, Props: props, Text: rest, Expr: e, Line: line, File: file}, nil
+		view := ""
+		if k := strings.Index(label, ":"); k > 0 {
+			view = label[:k]
+		}
+		return &Clause{Kind: kind, Label: label, View: view, Props: props, Text: rest, Expr: e, Line: line, File: file}, nil
 	}
 	switch w {
 	case "props":
@@ -425,4 +430,26 @@ func clauseName(c *Clause) string {
 		t = t[:60]
 	}
 	return t
+}
+
+// views lists the proof views of a contract: "" (clauses without a view) first, then the named views.
+func (c *Contract) views() []string {
+	seen := map[string]bool{"": true}
+	out := []string{""}
+	add := func(cl *Clause) {
+		if cl != nil && !seen[cl.View] {
+			seen[cl.View] = true
+			out = append(out, cl.View)
+		}
+	}
+	for _, cl := range c.Ensures {
+		add(cl)
+	}
+	for _, ls := range c.Loops {
+		for _, cl := range ls.Invariants {
+			add(cl)
+		}
+	}
+	sort.Strings(out[1:])
+	return out
 }
